@@ -6,7 +6,7 @@ use std::thread;
 use crate::verif::thread;
 use std::time::Duration;
 
-use crate::coroutine_impl::{co_cancel_data, is_coroutine, CoroutineImpl, EventSource};
+use crate::coroutine_impl::{co_cancel_handle, is_coroutine, CoroutineImpl, EventSource};
 use crate::likely::unlikely;
 use crate::scheduler::get_scheduler;
 use crate::yield_now::{get_co_para, yield_with};
@@ -18,7 +18,7 @@ struct Sleep {
 impl EventSource for Sleep {
     // register the coroutine to the park
     fn subscribe(&mut self, co: CoroutineImpl) {
-        let cancel = co_cancel_data(&co);
+        let cancel = co_cancel_handle(&co);
         // put the coroutine into the timer list
         let sleep_co = Arc::new(AtomicOption::some(co));
         get_scheduler().add_timer(self.dur, sleep_co.clone());
